@@ -420,6 +420,7 @@ func main() {
 		}
 		iterCase(vers[i%3], o, hwm, items, budgets)
 	}
+	tokCases(gen.New(), thorough)
 	expiredCases(r, thorough)
 	readerCases(r, thorough)
 }
